@@ -16,7 +16,10 @@ CHECKS = {
        "representation invariant, String() denotes the same value and LengthOfFractionalPart is the significant fraction "
        "length; (3) one inductive step: for ALL pairs of Number states satisfying the invariant with up to L digits each "
        "(L=3 quick, 5 thorough), every exponent position and both signs, Cmp/Equal/LT/LE/GT/GE agree with exact integer "
-       "arithmetic; (4) concrete small and 17-20 digit exponents never panic or wrap.",
+       "arithmetic; (4) concrete small and 17-20 digit exponents never panic or wrap; (5) 18 concrete long operands (19-21 digit integer "
+       "parts around 2^63, 2^64 and 10^20, also spelled with exponents, both signs) compared pairwise against exact integers; (6) the "
+       "precision constraint - the consumer of the fraction length - on 15 literals with and without exponents x precision 1-10: "
+       "refused iff the value has more significant fraction digits.",
   note="(3) covers any history only because (2) shows NewNumber establishes the invariant. Known finding "
        "C13-zero-mantissa-exponent (0e5 rejected) is reported as KNOWN-FINDING.",
   ref="DESIGN.md §4 C13"),
@@ -50,7 +53,8 @@ CHECKS = {
        "return values, callback visit sequences and the post-state (order slice and data map) equal those of a reference "
        "insertion-ordered dictionary, and the representation invariant is re-established - an inductive step that covers "
        "histories of any length within N keys; two-operation sequences are added as a cross-check. Key coincidences are "
-       "decided by the solver (symbolic map lookups).",
+       "decided by the solver (symbolic map lookups). Every step also runs under two other modelled iteration orders of the data map; the "
+       "constraints map also holds NIL values and the string set the empty string (present like any other value).",
   note="MarshalJSON is outside the claim (encoding/json reflection is not executed by the engine). Keys are one-byte strings / "
        "small ints, values carry one symbolic byte of identity.",
   ref="DESIGN.md §4 C19"),
